@@ -48,6 +48,11 @@ def col2 (m : M3 K) : V3 K := ⟨m.r0.z, m.r1.z, m.r2.z⟩
 def transpose (m : M3 K) : M3 K := ⟨col0 m, col1 m, col2 m⟩
 /-- `~m * v` -/
 def tmulVec (m : M3 K) (v : V3 K) : V3 K := mulVec (transpose m) v
+/-- matrix product: row i of `a*b` = (row i of a) · (columns of b) -/
+def mul (a b : M3 K) : M3 K :=
+  ⟨⟨V3.dot a.r0 (col0 b), V3.dot a.r0 (col1 b), V3.dot a.r0 (col2 b)⟩,
+   ⟨V3.dot a.r1 (col0 b), V3.dot a.r1 (col1 b), V3.dot a.r1 (col2 b)⟩,
+   ⟨V3.dot a.r2 (col0 b), V3.dot a.r2 (col1 b), V3.dot a.r2 (col2 b)⟩⟩
 end M3
 
 /-- rigid transform `X = (R, p)`: `X * v = R v + p`, `~X * v = Rᵀ (v − p)` -/
@@ -58,6 +63,10 @@ structure Xf (K : Type) where
 namespace Xf
 def app (X : Xf K) (v : V3 K) : V3 K := V3.add (M3.mulVec X.R v) X.p
 def inv (X : Xf K) (v : V3 K) : V3 K := M3.tmulVec X.R (V3.sub v X.p)
+/-- composition `G ∘ X` (`G * X` of SimTK) -/
+def comp (G X : Xf K) : Xf K := ⟨M3.mul G.R X.R, app G X.p⟩
+/-- `~X1 * X2`: frame 2 measured in frame 1 -/
+def invComp (X1 X2 : Xf K) : Xf K := ⟨M3.mul (M3.transpose X1.R) X2.R, inv X1 X2.p⟩
 end Xf
 
 /-! ## first-order jets -/
